@@ -1532,6 +1532,27 @@ def s_ordering_is(kind):
     return h
 
 
+def s_str_eq(negate):
+    """equality of two texts that are both known (string literals of the analysed code or of the concrete input); anything else stays opaque"""
+    def h(I_, st, path, c, args, t, depth):
+        if len(args) != 2:
+            return None
+        vs = []
+        for a in args:
+            v = a
+            for _ in range(4):
+                if v[0] in ("lref", "ptr", "href"):
+                    v = _target(I_, st, v)
+                else:
+                    break
+            vs.append(v)
+        if vs[0][0] == "s" and vs[1][0] == "s":
+            eq = vs[0][1] == vs[1][1]
+            return [(st, I(1 if eq != negate else 0))]
+        return None
+    return h
+
+
 def s_find(I_, st, path, c, args, t, depth):
     """Iterator::find over a fully known sequence: the first element for which the predicate holds"""
     it = _as_iter(I_, st, args[0])
@@ -1693,6 +1714,7 @@ SUMMARIES = [(re.compile(rx), h) for rx, h in [
     (r"option::Option::<T>::is_some_and$", s_option_or("is_some_and")), (r"result::Result::<T, E>::is_ok_and$", s_option_or("is_ok_and")), (r"option::Option::<T>::is_none_or$", s_option_or("is_none_or")),
     (r"cmp::Ordering::(is_lt)$", s_ordering_is("is_lt")), (r"cmp::Ordering::(is_le)$", s_ordering_is("is_le")), (r"cmp::Ordering::(is_gt)$", s_ordering_is("is_gt")),
     (r"cmp::Ordering::(is_ge)$", s_ordering_is("is_ge")), (r"cmp::Ordering::(is_eq)$", s_ordering_is("is_eq")), (r"cmp::Ordering::(is_ne)$", s_ordering_is("is_ne")),
+    (r"PartialEq.*>::eq$|PartialEq.*::eq$", s_str_eq(False)), (r"PartialEq.*>::ne$|PartialEq.*::ne$", s_str_eq(True)),
     (r"Iterator>::find$|Iterator::find$", s_find),
     (r"Iterator>::find_map$|Iterator::find_map$", s_find_map),
     (r"result::Result::<T, E>::and_then$|option::Option::<T>::and_then$", s_variant_map("and_then")),
